@@ -39,7 +39,9 @@ func From8Bit(v uint8) float32 {
 //
 // This implementation uses a fast look-up table without sacrificing accuracy.
 func From16Bit(v uint16) float32 {
+	verifAt("srgb.from16.entry")
 	if encoded16ToLinearLUT != nil {
+		verifAt("srgb.from16.ret")
 		return encoded16ToLinearLUT[v]
 	}
 	return from16BitAndInitLUT(v)
@@ -47,9 +49,12 @@ func From16Bit(v uint16) float32 {
 
 func from16BitAndInitLUT(v uint16) float32 {
 	initFrom16BitLUTOnce.Do(func() {
+		verifAt("srgb.from16.build")
 		from16BitLUT := lut.Build16BitToLinear(encodedToLinear)
 		encoded16ToLinearLUT = from16BitLUT[:]
+		verifAt("srgb.from16.publish")
 	})
+	verifAt("srgb.from16.ret")
 	return encoded16ToLinearLUT[v]
 }
 
@@ -68,7 +73,9 @@ func To8Bit(v float32) uint8 {
 // This implementation uses a fast look-up table and is approximate. For more
 // accuracy, see ConvertLinearTo16Bit.
 func To16Bit(v float32) uint16 {
+	verifAt("srgb.to16.entry")
 	if linearToEncoded16LUT != nil {
+		verifAt("srgb.to16.ret")
 		return linearToEncoded16LUT[linear.NormalisedTo16Bit(v)]
 	}
 	return to16BitAndInitLUT(v)
@@ -76,8 +83,11 @@ func To16Bit(v float32) uint16 {
 
 func to16BitAndInitLUT(v float32) uint16 {
 	initTo16BitLUTOnce.Do(func() {
+		verifAt("srgb.to16.build")
 		to16BitLUT := lut.BuildLinearTo16Bit(linearToEncoded)
 		linearToEncoded16LUT = to16BitLUT[:]
+		verifAt("srgb.to16.publish")
 	})
+	verifAt("srgb.to16.ret")
 	return linearToEncoded16LUT[linear.NormalisedTo16Bit(v)]
 }
